@@ -47,7 +47,7 @@ def ra_spec(orig, w):
 def running_average(ctx):
     import eqsig
     rng = ctx.rng
-    cases = [('corpus-F17-2', np.arange(8) ** 2, 3, True), ('corpus', np.array([1.0, 2.0, 3.0, 4.0, 5.0]), 4, False),
+    cases = [('corpus-F17-2', np.arange(8) ** 2, 3, False), ('corpus', np.array([1.0, 2.0, 3.0, 4.0, 5.0]), 4, False),
              ('corpus', np.array([1.0, 2.0, 6.0]), 7, False)]
     nmax = 8 if ctx.tier == 'quick' else 12
     for n in range(1, nmax + 1):
